@@ -180,6 +180,29 @@ def prob_ok(pcfg, pt_item, exact, bad_groups=()):
     return abs(got - ref) <= 1e-12 * max(abs(ref), abs(got))
 
 
+def queue_items(q):
+    """the pre-terminals waiting in the real queue (I-layer observation).  The representation of a heap entry is an
+    implementation detail: an object with .pt_item on the pinned tree; a tuple holding the pt_item dict is accepted too.
+    Returns None when the entries cannot be interpreted - the I-layer comparison is then skipped ('not observable'),
+    the P-layer verdict does not need it."""
+    out = []
+    try:
+        for e in q.p_queue:
+            if hasattr(e, 'pt_item'):
+                out.append(e.pt_item)
+                continue
+            if isinstance(e, dict) and 'pt' in e:
+                out.append(e)
+                continue
+            cand = [x for x in e if isinstance(x, dict) and 'pt' in x] if isinstance(e, (tuple, list)) else []
+            if len(cand) != 1:
+                return None
+            out.append(cand[0])
+    except Exception:
+        return None
+    return out
+
+
 def run_history(pcfg, cuts, exact=True, with_queue=True, max_pops=None):
     """One history on the real queue: session i pops until its (cuts[i]+1)-th pop, at which the
     quit is noticed (that pre-terminal is not guessed), saves through configparser text, and the
@@ -200,7 +223,7 @@ def run_history(pcfg, cuts, exact=True, with_queue=True, max_pops=None):
             saved = cp.getfloat('guessing_info', 'max_probability')
             q = PcfgQueue(pcfg, cp)
         sess = {'saved': saved, 'ev': [], 'quit': None,
-                'restored': [qi.pt_item for qi in q.p_queue] if with_queue else None}
+                'restored': queue_items(q) if with_queue else None}
         cut = cuts[si] if si < len(cuts) else None
         n = 0
         while True:
@@ -212,7 +235,7 @@ def run_history(pcfg, cuts, exact=True, with_queue=True, max_pops=None):
             if it is None:
                 exhausted = True
                 break
-            qitems = [qi.pt_item for qi in q.p_queue] if with_queue else None
+            qitems = queue_items(q) if with_queue else None
             if cut is not None and n == cut:
                 sess['quit'] = (it, qitems)
                 cp = configparser.ConfigParser()
@@ -260,7 +283,9 @@ def to_traces(tid, pcfg, hist, mode, exact=True, int_grammar=None, ev2=None, met
     if meta:
         p['meta'] = meta
     itrace = None
-    if int_grammar is not None and hist['sessions'][0]['restored'] is not None and not namer.has_duplicates():
+    observable = all(s_['restored'] is not None and all(qi is not None for _, qi in s_['ev']) and
+                     (s_['quit'] is None or s_['quit'][1] is not None) for s_ in hist['sessions'])
+    if int_grammar is not None and observable and not namer.has_duplicates():
         for k, s in enumerate(hist['sessions']):
             if k == 0:
                 iev.append({'a': 'start', 'q': namer.name_all(s['restored'])})
